@@ -144,7 +144,9 @@ const (
 
 var dkinds = []dkind{kU, kD, kMU, kMD}
 
-func (k dkind) String() string { return [...]string{"graph", "digraph", "multigraph", "multidigraph"}[k] }
+func (k dkind) String() string {
+	return [...]string{"graph", "digraph", "multigraph", "multidigraph"}[k]
+}
 func (k dkind) directed() bool { return k == kD || k == kMD }
 func (k dkind) multi() bool    { return k == kMU || k == kMD }
 
